@@ -379,6 +379,7 @@ void setup(vf::Options &o) {
       if (th) { Cfg c = b; c.Q = 4; c.B = 2; c.P = 2; c.n = 2; c.F = 1; c.S = 1; add_cfg(c); }
     } else {  // C02: queue always large enough for everything
       { Cfg c = b; c.Q = 8; c.B = 2; c.P = 1; c.n = 2; c.F = 1; c.tail = 1; add_cfg(c); }
+      { Cfg c = b; c.Q = 8; c.B = 1; c.P = 2; c.n = 1; c.F = 1; add_cfg(c); }   // a record arrives while the worker is inside an export cycle
       { Cfg c = b; c.Q = 8; c.B = 8; c.P = 1; c.n = 1; c.F = 2; add_cfg(c); }
       { Cfg c = b; c.Q = 8; c.B = 2; c.P = 1; c.n = 2; c.S = 2; c.tail = 2; add_cfg(c); }
       { Cfg c = b; c.Q = 8; c.B = 2; c.P = 1; c.n = 1; c.F = 1; c.S = 1; add_cfg(c); }
